@@ -30,8 +30,19 @@ def build_harness(race=False):
     """(re)build the harness against /repo's current working tree with the hooks on"""
     os.makedirs(BUILD, exist_ok=True)
     hdir = os.path.join(VERIF, "harness")
+    tag = ""
+    if REPO != "/repo":
+        # another copy of the library (seeded-change matrix): build from a scratch copy of the harness whose go.mod points there
+        tag = "-" + hashlib.sha1(REPO.encode()).hexdigest()[:8]
+        src, hdir = hdir, os.path.join(BUILD, "harness-src" + tag)
+        shutil.rmtree(hdir, ignore_errors=True)
+        shutil.copytree(src, hdir)
+        with open(os.path.join(hdir, "go.mod")) as f:
+            mod = f.read().replace("=> /repo", "=> " + REPO)
+        with open(os.path.join(hdir, "go.mod"), "w") as f:
+            f.write(mod)
     shutil.copyfile(os.path.join(REPO, "go.sum"), os.path.join(hdir, "go.sum"))
-    out = os.path.join(BUILD, "harness-race" if race else "harness")
+    out = os.path.join(BUILD, ("harness-race" if race else "harness") + tag)
     env = dict(GOENV)
     cmd = ["go", "build", "-tags", "verif", "-o", out]
     if race:
@@ -233,14 +244,16 @@ class Report:
         self.known_hits.setdefault(fid, []).append(witness)
 
     def finish(self):
-        os.makedirs(os.path.join(VERIF, "evidence"), exist_ok=True)
-        os.makedirs(os.path.join(VERIF, "replays"), exist_ok=True)
+        evdir = os.environ.get("VERIF_EVIDENCE_DIR", os.path.join(VERIF, "evidence"))
+        rpdir = os.environ.get("VERIF_REPLAY_DIR", os.path.join(VERIF, "replays"))
+        os.makedirs(evdir, exist_ok=True)
+        os.makedirs(rpdir, exist_ok=True)
         for fid, ws in sorted(self.known_hits.items()):
             print("KNOWN-FINDING: property=%s %s (%d cases this run, e.g. %s)" % (self.prop, fid, len(ws), ws[0]))
         paths = []
         for summary, replay in self.violations[:20]:
             h = hashlib.sha1(json.dumps(replay, sort_keys=True).encode()).hexdigest()[:12]
-            path = os.path.join(VERIF, "replays", "%s-%s.json" % (self.prop, h))
+            path = os.path.join(rpdir, "%s-%s.json" % (self.prop, h))
             with open(path, "w") as f:
                 json.dump({"property": self.prop, "summary": summary, "replay": replay}, f, indent=1)
             paths.append(path)
@@ -255,7 +268,7 @@ class Report:
             cov["samples"] = ["(none)"]
         ev = {"property_id": self.prop, "tier": self.tier, "seed": seed(), "level": self.level, "coverage": cov,
               "assumptions": self.assumptions, "wall_s": round(time.time() - self.t0, 2), "violations": len(self.violations)}
-        with open(os.path.join(VERIF, "evidence", self.prop + ".json"), "w") as f:
+        with open(os.path.join(evdir, self.prop + ".json"), "w") as f:
             json.dump(ev, f, indent=1, sort_keys=True)
             f.write("\n")
         print("%s %s: %d evaluations, %d distinct non-trivial, TLC %d distinct states, %d violations, %.1fs" % (
